@@ -1,9 +1,9 @@
 use std::borrow::Cow;
-use std::collections::HashSet;
+use std::collections::{HashMap, HashSet};
 use std::sync::Arc;
 
 use crossbeam_utils::atomic::AtomicCell;
-use datacake_crdt::{HLCTimestamp, OrSWotSet, StateChanges};
+use datacake_crdt::{HLCTimestamp, Key, OrSWotSet, StateChanges};
 use datacake_node::Clock;
 use puppet::{puppet_actor, ActorMailbox};
 
@@ -12,6 +12,33 @@ use crate::keyspace::messages::{CorruptedState, PurgeDeletes, Serialize, NUM_SOU
 use crate::keyspace::LastUpdated;
 use crate::storage::BulkMutationError;
 use crate::Storage;
+
+/// Keeps only the newest entry of every document in a bulk request, in request order.
+///
+/// A request can carry several versions of one document (e.g. mutations of the same key
+/// which were batched out of order), the storage applies them in the order they are given
+/// while the set keeps the newest, so only the newest may be handed to either.
+fn newest_per_doc<T>(
+    docs: impl IntoIterator<Item = T>,
+    meta: impl Fn(&T) -> (Key, HLCTimestamp),
+) -> Vec<T> {
+    let docs = Vec::from_iter(docs);
+
+    let mut newest = HashMap::with_capacity(docs.len());
+    for (pos, doc) in docs.iter().enumerate() {
+        let (id, ts) = meta(doc);
+        let entry = newest.entry(id).or_insert((ts, pos));
+        if entry.0 <= ts {
+            *entry = (ts, pos);
+        }
+    }
+
+    docs.into_iter()
+        .enumerate()
+        .filter(|(pos, doc)| newest[&meta(doc).0].1 == *pos)
+        .map(|(_, doc)| doc)
+        .collect()
+}
 
 /// Spawns a new keyspace actor, returning the actor's mailbox.
 pub async fn spawn_keyspace<S>(
@@ -90,8 +117,7 @@ where
         let mut valid_entries = Vec::with_capacity(msg.docs.len());
 
         // Only select docs to be inserted if they're able to be applied.
-        let docs = msg
-            .docs
+        let docs = newest_per_doc(msg.docs, |doc| (doc.id(), doc.last_updated()))
             .into_iter()
             .filter(|doc| self.state.will_apply(doc.id(), doc.last_updated()))
             .map(|doc| {
@@ -158,8 +184,7 @@ where
         let mut valid_entries = Vec::with_capacity(msg.docs.len());
 
         // Only select docs to be inserted if they're able to be applied.
-        let docs = msg
-            .docs
+        let docs = newest_per_doc(msg.docs, |doc| (doc.id, doc.last_updated))
             .into_iter()
             .filter(|doc| self.state.will_apply(doc.id, doc.last_updated))
             .map(|doc| {
